@@ -15,8 +15,8 @@ PKINDS = ['pthread', 'pprocess', 'premote']
 FRONT_ROLE = 'RemoteWorker._run_frontend'
 
 
-def mk_case(ctx, kind, items, consumer, idx, fault=None, poison=(), policy=None, knobs=None, tag=''):
-    return {'kind': kind, 'items': list(items), 'poison': list(poison), 'consumer': consumer, 'fault': fault,
+def mk_case(ctx, kind, items, consumer, idx, fault=None, poison=(), policy=None, knobs=None, tag='', origin_only=()):
+    return {'kind': kind, 'items': list(items), 'poison': list(poison), 'origin_only': list(origin_only), 'consumer': consumer, 'fault': fault,
             'policy': policy or {'kind': 'random', 'p_stay': 0.5}, 'knobs': knobs or {},
             'sched_seed': ctx.case_seed(tag, kind, consumer, idx, len(items))}
 
@@ -44,7 +44,7 @@ class Run:
         if c['consumer'] == 'mux':
             pipe = Pipe()
             kw['results_pipe'] = pipe
-        r = lib.call_with_deadline(lib.make_worker, 600.0, kind, 'p_poison', kwargs={'poison': c['poison']}, host=host, **kw)
+        r = lib.call_with_deadline(lib.make_worker, 600.0, kind, 'p_poison', kwargs={'poison': c['poison'], 'origin_only': c.get('origin_only') or []}, host=host, **kw)
         if r[0] != 'ok':
             self.info['ctor'] = r[0]
             return
@@ -142,8 +142,8 @@ class Run:
             return V
         expected = []
         for x in c['items']:
-            if x in c['poison']:
-                break
+            if x in c['poison'] or x in (c.get('origin_only') or []):
+                break       # (a result the parent cannot rebuild ends the stream of a remote worker like a failure does)
             expected.append(['r', x])
         got = self.got
         cons = c['consumer']
@@ -261,6 +261,8 @@ def plan(ctx):
         ni = rng.randrange(0, 6)
         items = rng.sample(range(100), ni)
         poison = [rng.choice(items)] if items and rng.random() < 0.3 else []
+        # remote kind: one result that cannot be rebuilt in the parent (class of the child's main script, failing __setstate__)
+        unb = [rng.choice(items)] if items and kind == 'premote' and rng.random() < 0.25 else []
         pol, knobs = draw_env(rng, tcp=(kind == 'premote'), adversarial_ok=True)
         fault = None
         r = rng.random()
@@ -273,7 +275,7 @@ def plan(ctx):
                 fault = {'kind': fk, 'thread': tname, 'ndp': rng.randrange(1, dpts[-1][3] * scale + 5)}
             elif lpts:
                 fault = {'kind': fk, 'thread': tname, 'nline': rng.randrange(1, lpts[-1][3] * scale + 5)}
-        rc.append(mk_case(ctx, kind, items, rng.choice(['next', 'iter', 'mux']), i, fault=fault, poison=poison, policy=pol, knobs=knobs, tag='random'))
+        rc.append(mk_case(ctx, kind, items, rng.choice(['next', 'iter', 'mux']), i, fault=fault, poison=poison, policy=pol, knobs=knobs, tag='random', origin_only=unb))
         if len(rc) >= 2000:
             ctx.run(rc, 'random')
             rc = []
